@@ -87,4 +87,45 @@ theorem reinterpolate_pardim2 (o : Obj K) (tol : K) (bu bv bu' bv' : Basis K) (p
     rw [sv] at this
     exact this
 
+/-- The same with the projection property of each direction given directly (used by `lower_order`). -/
+theorem reinterpolate_pardim2_proj (o : Obj K) (tol : K) (bu bv bu' bv' : Basis K) (pu pv : Array K)
+    (A B C : ℕ) (Niu Niv : Mat K) (hb : o.bases = #[bu, bv]) (hs : o.cps.shape = [A, B, C])
+    (hgu : bu'.greville = .ok pu) (hgv : bv'.greville = .ok pv)
+    (Hu : Mat.invChecked (Obj.basisMat bu' tol pu.toList 0 true) = .ok Niu)
+    (Hv : Mat.invChecked (Obj.basisMat bv' tol pv.toList 0 true) = .ok Niv)
+    (Eu Ev : ℕ → ℕ → K)
+    (pju : Proj Niu (Obj.basisMat bu tol pu.toList 0 true) pu.size A pu.size Eu)
+    (pjv : Proj Niv (Obj.basisMat bv tol pv.toList 0 true) pv.size B pv.size Ev) :
+    ∃ T, o.reinterpolate tol [bu', bv'] = .ok T ∧ T.shape = [pu.size, pv.size, C] ∧
+      ∀ k0, k0 < pu.size → ∀ k1, k1 < pv.size → ∀ i, i < C →
+        T.get ((k0 * pv.size + k1) * C + i)
+          = ∑ a ∈ range A, (∑ j ∈ range B, o.cps.get ((a * B + j) * C + i) * Ev j k1) * Eu a k0 := by
+  have hpd : o.pardim = 2 := by simp [Obj.pardim, hs]
+  obtain ⟨su, _⟩ := Mat.invChecked_spec _ Niu Hu
+  obtain ⟨sv, _⟩ := Mat.invChecked_spec _ Niv Hv
+  have r1 : (Obj.basisMat bu' tol pu.toList 0 true).nrows = pu.size := by simp [Mat.nrows, basisMat_size]
+  have r2 : (Obj.basisMat bv' tol pv.toList 0 true).nrows = pv.size := by simp [Mat.nrows, basisMat_size]
+  rw [r1] at su
+  rw [r2] at sv
+  set Nou := Obj.basisMat bu tol pu.toList 0 true with hNou
+  set Nov := Obj.basisMat bv tol pv.toList 0 true with hNov
+  have sou : Nou.size = pu.size := by simp [hNou, basisMat_size]
+  have sov : Nov.size = pv.size := by simp [hNov, basisMat_size]
+  have hr : o.reinterpolate tol [bu', bv'] = .ok (Tensor.tensordotFront Niu (Tensor.tensordotFront Niv
+        (Tensor.tensordotFront Nou (Tensor.tensordotFront Nov o.cps 2) 2) 2) 2) := by
+    unfold Obj.reinterpolate
+    simp only [Obj.grevilles, hgu, hgv, hb, hpd]
+    simp only [List.zip_cons_cons, List.zip_nil_right, List.map_cons, List.map_nil, List.reverse_cons,
+      List.reverse_nil, List.nil_append, List.cons_append, List.foldl_cons, List.foldl_nil, Obj.solveChain]
+    rw [Hv]
+    simp only [Hu]
+    rfl
+  refine ⟨_, hr, ?_, ?_⟩
+  · rw [(chain2 o.cps hs Nou Nov Niu Niv).1, su, sv]
+  · intro k0 hk0 k1 hk1 i hi
+    have := chain2_proj o.cps hs Nou Nov Niu Niv Eu Ev (by rw [sou, su]; exact pju) (by rw [sov, sv]; exact pjv)
+      k0 k1 i (by rw [su]; exact hk0) (by rw [sv]; exact hk1) hi
+    rw [sv] at this
+    exact this
+
 end Splipy
